@@ -122,7 +122,9 @@ class Arg:
     # memory (kind P): element i of the array the pointer addresses, as a bit pattern
     def elem(self, i, old=False):
         e = "%s[%d]" % (self.scalar, i)
-        if old:
+        if old and getattr(self, "native", False):
+            e = "OLD_%s[%d]" % (self.cname, i)      # native replay: the pre-state copy of the buffer
+        elif old:
             e = "__CPROVER_old(%s)" % e
         if TYPES[self.tid][3] == "f":
             return "F2U%d(%s)" % (self.w, e)
@@ -240,6 +242,7 @@ def bind(fn, sigjson, tinfo, native=False):
             a = Arg("P", pt.tid, None, scalar=ip["name"])
             a.cname, a.ctype, a.const = ip["name"], ip["type"], pt.const
             a.complex, a.is_bool = getattr(pt, "complex", False), getattr(pt, "is_bool", False)
+            a.native = native
             ctx.args.append(a)
             ctx.ir_order.append(("mem", ip["name"], ip["type"]))
         else:
